@@ -1107,6 +1107,7 @@ func main() {
 	}
 	b.WriteString("end Panacea.Generated.Skel\n")
 	write(filepath.Join(*outDir, "Skeletons.lean"), b.String())
+	emitCode(pkgs, *outDir)
 }
 
 func write(path, content string) {
